@@ -672,12 +672,13 @@ def run_side_outputs(root, tag, compiler):
     base = os.path.basename(compiler)
     scen = [('MD', ['-MD'], {}), ('MD_MF', ['-MD', '-MF', 'deps2.d'], {}), ('MMD_MT', ['-MMD', '-MT', 'tgt'], {}), ('split_dwarf', ['-g', '-gsplit-dwarf'], {}),
             ('stack_usage', ['-fstack-usage'], {}), ('save_temps_obj', ['-save-temps=obj'], {}), ('dependencies_output', [], {'DEPENDENCIES_OUTPUT': 'envdeps.d'}), ('sunpro_dependencies', [], {'SUNPRO_DEPENDENCIES': 'sun.d'})]
+    if base == 'gcc': scen += [('opt_info_file', ['-O2', '-fopt-info-vec=vec.txt'], {}), ('asm_listing', ['-Wa,-adhln=main.lst'], {}), ('asm_deps', ['-Wa,--MD,as.d'], {})]      # (-fprofile-note goes with --coverage, whose objects differ from run to run: fixed in the table, not replayed here)
     if base == 'gcc': scen += [('aux_info', ['-aux-info', 'protos.txt'], {}), ('dump_tree', ['-fdump-tree-optimized'], {}), ('callgraph_info', ['-fcallgraph-info'], {}), ('opt_record', ['-fsave-optimization-record'], {}), ('dump_rtl', ['-fdump-rtl-expand'], {}), ('dumpbase', ['-fstack-usage', '-dumpbase', 'zz'], {})]
     if base == 'clang': scen += [('opt_record', ['-fsave-optimization-record'], {}), ('serialize_diag', ['--serialize-diagnostics', 'diag.dia'], {}), ('time_trace', ['-ftime-trace'], {})]
     scen += [('MD_special_object_name', ['-MD'], {}), ('MMD_special_object_name', ['-MMD', '-MP'], {}), ('MD_two_targets', ['-MD', '-MT', 'a', '-MT', 'b'], {}), ('MD_MQ_and_MT', ['-MD', '-MQ', 'x y', '-MT', 'z'], {})]
     for name, flags, env in scen:
         w = World(os.path.join(root, 'side_' + name), f'{tag}so{name}', compiler, random.Random(0)); w.keep_outputs = False
-        w.flags = ['-O1', '-Iinc1'] + flags; w.env = dict(env); w.side_names_only = name in ('opt_record', 'time_trace')
+        w.flags = ['-O1', '-Iinc1'] + flags; w.env = dict(env); w.side_names_only = name in ('opt_record', 'time_trace', 'asm_deps')      # contents with timings or temporary file names
         if name.endswith('special_object_name'): w.out = 'o1/a b$c#d.o'      # characters Make treats specially: the .d file must quote them as the compiler does
         w.sc.start()
         try:
